@@ -618,7 +618,7 @@ func (g *gen) qrange() (int64, int64, string) {
 	b := st.HeadMinTime
 	if st.TruncationRunning || g.e.lastPt == "trunc.timeStored" {
 		b = st.TruncationTime
-	} else if g.e.lastPt == "head.written" || g.e.lastPt == "reload.swapped" {
+	} else if g.e.lastPt == "head.written" || g.e.lastPt == "reload.swapped" || g.e.lastPt == "idle" || g.e.lastPt == "start" {
 		b = (st.HeadMinTime/g.R)*g.R + g.R
 	}
 	var lo, hi int64
@@ -673,9 +673,9 @@ func (g *gen) atPosition() {
 		g.c.Count("imm@" + pos + "/" + cls)
 		g.c.NonTrivial("imm@" + pos + "/" + cls)
 	}
-	if len(g.held) < 2 && g.r.Chance(22) {
+	if len(g.held) < 3 && g.r.Chance(22) {
 		id, cls := g.newQ()
-		hq := heldQ{id: id, ttl: 1 + g.r.Intn(6)}
+		hq := heldQ{id: id, ttl: 1 + g.r.Intn(9)}
 		if g.r.Chance(30) {
 			g.op("read " + id)
 		}
@@ -694,6 +694,17 @@ func (g *gen) release(i int) {
 }
 
 func (g *gen) runMaintJob(line string) {
+	// a query that is already open when the job starts and stays open for a long time: every wait of
+	// the job that concerns it must block until it is released below
+	g.e.lastPt = "idle"
+	for i := 0; i < 2; i++ {
+		if len(g.held) < 3 && g.r.Chance(45) {
+			id, cls := g.newQ()
+			g.held = append(g.held, heldQ{id: id, ttl: 5 + g.r.Intn(12)})
+			g.c.Count("held@idle/" + cls)
+			g.c.NonTrivial("held@idle/" + cls)
+		}
+	}
 	if g.op(line) != "started" {
 		return
 	}
